@@ -74,6 +74,12 @@ CHECKS = {
         "Three known findings (neighbour-by-neighbour drift; one-sided bound not enforced for <= 10 breakpoints; SLSQP refinement returns unordered points) are excluded by input/reference-only predicates, which removes about half of the generated cases from the failing assertions only.",
         "DESIGN.md section 5 C17",
     ),
+    "C18": (
+        "Hypothesis @given fluid x operating point x request order; first/second-law identities with CoolProp's PropsSI as second opinion",
+        "Generated-input search (2k quick / 60k thorough) over ~120 CoolProp fluids, evaporating/condensing temperatures across the two-phase range (lift from 0.5 K), superheat, subcooling, efficiency, duty and every order of condenser/evaporator stream requests: energy balance, positive work, COP relation, entropy non-decrease in compression and throttling, isenthalpic throttle, saturation pressures, emitted stream duties, monotonicity and order independence.",
+        "Conditional on solve() succeeding; points with Psat < 1 kPa or where CoolProp's interfaces disagree are skipped and counted; two known findings (degenerate cycles without evaporation / with liquid discharge) excluded by PropsSI-based predicates.",
+        "DESIGN.md section 5 C18",
+    ),
     "C19": (
         "two Hypothesis RuleBasedStateMachines (stream setters; collection operations) against explicit models",
         "Stateful model-based search (2 x 1.5k machines x <=12 steps quick / 2 x 50k x <=30 thorough): stream invariants (CP x span = duty, min <= max, bounds = supply/target, type and shift direction follow the temperatures, htr = 1/htc) after every setter incl. flips and equality; collection vs model list (identity-exact membership, len, iteration = permutation monotone in the sort key, index, contains, remove of absent raises KeyError, concatenation keeps both operands, replace keeps all members).",
